@@ -1,6 +1,8 @@
 package props
 
 import (
+	"bufio"
+	"encoding/json"
 	"fmt"
 	"net"
 	"net/http"
@@ -18,12 +20,13 @@ import (
 // c07Faults is the catalogue: name -> injection point.
 var c07Faults = []struct{ Point, Kind string }{
 	{"list", "500"}, {"list", "404"}, {"list", "garbage-json"}, {"list", "non-string-json"}, {"list", "oversized"}, {"list", "reset"}, {"list", "null-ids"},
+	{"fetch", "reset-before-headers-x3"}, {"fetch", "close-before-headers-x3"}, {"fetch", "reset-x2-then-ok"},
 	{"fetch", "404"}, {"fetch", "500x3"}, {"fetch", "500x2-then-ok"}, {"fetch", "not-http"}, {"fetch", "no-start-time"}, {"fetch", "truncated-body"}, {"fetch", "reset-mid-body"},
 	{"backend", "refused"},
 	{"backend", "garbage-status"}, {"backend", "huge-headers"}, {"backend", "close-before-headers"}, {"backend", "rst"},
 	{"backend", "short-content-length"}, {"backend", "rst-mid-chunk"}, {"backend", "bad-chunk-size"}, {"backend", "one-byte-then-trailers"}, {"backend", "lying-content-encoding"},
 	{"upload", "500x3"}, {"upload", "404"}, {"upload", "reset-at-0"}, {"upload", "reset-at-4096"}, {"upload", "reset-at-end"}, {"upload", "stall"},
-	{"shim", "data-malformed-json"}, {"shim", "data-unknown-session"}, {"shim", "poll-unknown-session"}, {"shim", "close-unknown-session"}, {"shim", "open-backend-refuses-upgrade"}, {"shim", "open-malformed-url"}, {"shim", "data-wrong-shape"},
+	{"shim", "data-malformed-json"}, {"shim", "data-unknown-session"}, {"shim", "poll-unknown-session"}, {"shim", "close-unknown-session"}, {"shim", "open-backend-refuses-upgrade"}, {"shim", "open-slow-failure-overlapping-opens"}, {"shim", "open-malformed-url"}, {"shim", "data-wrong-shape"},
 }
 
 type c07Lane struct {
@@ -70,7 +73,11 @@ func c07Lane_(r *core.Run, agentBin string, md *fakes.Metadata, li int, ln c07La
 		return
 	}
 	defer backend.Srv.Close()
-	backend.Override = func(req *rawhttp.Message, conn net.Conn) (bool, bool) {
+	backend.Override = func(req *rawhttp.Message, conn net.Conn, br *bufio.Reader) (bool, bool) {
+		if strings.HasPrefix(req.Target, "/ws/echo/") && rawhttp.HasToken(req.Get("Upgrade"), "websocket") {
+			wsEcho(req, conn, br)
+			return true, false
+		}
 		if !strings.HasPrefix(req.Target, "/fault/") {
 			return false, false
 		}
@@ -93,6 +100,8 @@ func c07Lane_(r *core.Run, agentBin string, md *fakes.Metadata, li int, ln c07La
 			w.End()
 			conn.Write(w.Bytes())
 		case "close-before-headers":
+		case "slow-close":
+			time.Sleep(150 * time.Millisecond)
 		case "rst":
 			rst()
 		case "short-content-length":
@@ -179,6 +188,16 @@ func c07Lane_(r *core.Run, agentBin string, md *fakes.Metadata, li int, ln c07La
 		fmu.Unlock()
 		start := time.Now().Format(time.RFC3339Nano)
 		switch k {
+		case "reset-before-headers-x3", "close-before-headers-x3", "reset-x2-then-ok":
+			if k == "reset-x2-then-ok" && n > 2 {
+				return false
+			}
+			if c := hijack(w); c != nil {
+				if tc, ok := c.(*net.TCPConn); ok && k != "close-before-headers-x3" {
+					tc.SetLinger(0)
+				}
+				c.Close()
+			}
 		case "404":
 			http.Error(w, "scripted", 404)
 		case "500x3":
@@ -317,6 +336,81 @@ func c07Lane_(r *core.Run, agentBin string, md *fakes.Metadata, li int, ln c07La
 			}
 		}(lane)
 	}
+	// healthy websocket-shim sessions (only in the configuration with the shim): each lane repeatedly opens a
+	// session to the echo endpoint, exchanges tagged messages and closes it; a wrong, missing or foreign echo is
+	// a disturbed neighbour
+	shimCall := func(id, path, body string, hdr ...rawhttp.Field) (*fakes.Upload, bool) {
+		var w rawhttp.Builder
+		w.Line("POST "+path+" HTTP/1.1").Field("Host", "c07.example").Fields(hdr).Field("Content-Length", fmt.Sprint(len(body))).End()
+		w.WriteString(body)
+		px.Enqueue(id, w.Bytes(), "")
+		up, ok := px.Wait(id, 25*time.Second)
+		return up, ok && up.Resp != nil
+	}
+	var shimProbes int64
+	if ln.shim {
+		for lane := 0; lane < 3; lane++ {
+			pwg.Add(1)
+			go func(lane int) {
+				defer pwg.Done()
+				for i := 0; ; i++ {
+					select {
+					case <-stop:
+						return
+					default:
+					}
+					during, _ := current.Load().(string)
+					tag := fmt.Sprintf("ws%ds%dl%di%d", li, r.Seed, lane, i)
+					fail := func(why string) {
+						after, _ := current.Load().(string)
+						r.Violate("C07:healthy-shim-session-disturbed:"+ln.name+":during="+during, fmt.Sprintf("healthy shim session %s started during fault [%s] (finished during [%s]): %s", tag, during, after, why), nil, nil)
+					}
+					up, ok := shimCall(tag+"-open", "/shim/open", "ws://x/ws/echo/"+tag, rawhttp.Field{Name: "X-Websocket-Shim-Version", Value: "1"})
+					if !ok || up.Resp.Status != 200 {
+						st := 0
+						if ok {
+							st = up.Resp.Status
+						}
+						fail(fmt.Sprintf("open answered %d", st))
+						time.Sleep(50 * time.Millisecond)
+						continue
+					}
+					var om struct {
+						ID string `json:"id"`
+					}
+					json.Unmarshal(up.Resp.Body, &om)
+					good := true
+					for k := 0; k < 4 && good; k++ {
+						msg := fmt.Sprintf("m-%s-%d", tag, k)
+						if k == 2 {
+							time.Sleep(60 * time.Millisecond) // stay open across other sessions' opens
+						}
+						d, _ := json.Marshal([]map[string]interface{}{{"id": om.ID, "msg": msg}})
+						if up, ok := shimCall(fmt.Sprintf("%s-d%d", tag, k), "/shim/data", string(d)); !ok || up.Resp.Status != 200 {
+							fail(fmt.Sprintf("data call %d on session %s not answered 200", k, om.ID))
+							good = false
+							break
+						}
+						up, ok := shimCall(fmt.Sprintf("%s-p%d", tag, k), "/shim/poll", fmt.Sprintf(`{"id":%q}`, om.ID))
+						var got []interface{}
+						if ok {
+							json.Unmarshal(up.Resp.Body, &got)
+						}
+						if !ok || up.Resp.Status != 200 || len(got) != 1 || got[0] != "echo:"+tag+":"+msg {
+							st := 0
+							if ok {
+								st = up.Resp.Status
+							}
+							fail(fmt.Sprintf("poll %d on session %s returned status %d %v, want [%q]", k, om.ID, st, got, "echo:"+tag+":"+msg))
+							good = false
+						}
+					}
+					shimCall(tag+"-close", "/shim/close", fmt.Sprintf(`{"id":%q}`, om.ID))
+					atomic.AddInt64(&shimProbes, 1)
+				}
+			}(lane)
+		}
+	}
 	// wait until the lanes work
 	deadline := time.Now().Add(30 * time.Second)
 	for atomic.LoadInt64(&probes) < 16 && time.Now().Before(deadline) && agent.Alive() {
@@ -397,11 +491,22 @@ func c07Lane_(r *core.Run, agentBin string, md *fakes.Metadata, li int, ln c07La
 					path, body = "/shim/open", "ws://x/fault/close-before-headers/ws"
 				case "open-malformed-url":
 					path, body = "/shim/open", "http://[::1"
+				case "open-slow-failure-overlapping-opens":
+					// the dial fails only after 150 ms, while the shim-session lanes keep opening sessions
+					path, body = "/shim/open", "ws://x/fault/slow-close/ws"
 				}
 				var w rawhttp.Builder
 				w.Line("POST "+path+" HTTP/1.1").Field("Host", "c07.example").Field("Content-Length", fmt.Sprint(len(body))).End()
 				w.WriteString(body)
 				px.Enqueue(id, w.Bytes(), "")
+				if f.Kind == "open-slow-failure-overlapping-opens" {
+					// several slow failures in a row, so that sessions opened by the healthy lanes overlap some of them
+					for k := 0; k < 8; k++ {
+						time.Sleep(40 * time.Millisecond)
+						px.Enqueue(fmt.Sprintf("%s-%d", id, k), w.Bytes(), "")
+					}
+					time.Sleep(400 * time.Millisecond)
+				}
 				up, got = px.Wait(id, 5*time.Second)
 			}
 			if got && up != nil && up.Resp != nil {
@@ -436,6 +541,7 @@ func c07Lane_(r *core.Run, agentBin string, md *fakes.Metadata, li int, ln c07La
 	close(stop)
 	pwg.Wait()
 	r.Add("healthy_probes", int(atomic.LoadInt64(&probes)))
+	r.Add("healthy_shim_sessions", int(atomic.LoadInt64(&shimProbes)))
 	r.Add("fault_injections", inj)
 	r.Set("statuses_of_faulty_requests_"+ln.name, statusSeen)
 	r.Sample(map[string]interface{}{"config": ln.name, "injections": inj, "probes": atomic.LoadInt64(&probes), "probe_failures": atomic.LoadInt64(&probeFails)})
